@@ -1,0 +1,19 @@
+//go:build verif
+
+package latch
+
+import "github.com/feichai0017/NoKV/kv"
+
+// VerifSlots returns the stripe indices a guard holds, in locking order
+// (verification harness only).
+func VerifSlots(g *Guard) []int {
+	if g == nil {
+		return nil
+	}
+	return append([]int(nil), g.slots...)
+}
+
+// VerifStripe returns the stripe index the manager assigns to key.
+func VerifStripe(m *Manager, key []byte) int {
+	return int(kv.MemHash(key) % uint64(len(m.stripes)))
+}
